@@ -145,10 +145,6 @@ pub open spec fn same_jobs<K: JobKey, M: Message>(a: Seq<Job<K, M>>, b: Seq<Job<
 pub open spec fn restored_at_head<K: JobKey, M: Message>(a: Seq<Job<K, M>>, b: Seq<Job<K, M>>, j: Job<K, M>) -> bool {
     b.len() == a.len() + 1 && jid(b[0]) == jid(j) && expired(b[0]) == expired(j) && (forall|i: int| 1 <= i < b.len() ==> #[trigger] b[i] == a[i - 1])
 }
-/// the only kinds of effect this unit's functions may add, except the listed ones, are absent between `a` and `b`
-pub open spec fn no_other_effects(a: Seq<Effect>, b: Seq<Effect>, x1: Kind, x2: Kind, x3: Kind, x4: Kind) -> bool {
-    forall|k: Kind| k != x1 && k != x2 && k != x3 && k != x4 ==> #[trigger] cnt(b, k) == cnt(a, k)
-}
 pub open spec fn settings_of(s: WorkerDiscardSettings) -> Option<(usize, DiscardMode)> {
     match s { WorkerDiscardSettings::None => None, WorkerDiscardSettings::Static { limit, mode } => Some((limit, mode)) }
 }
